@@ -55,10 +55,11 @@ var AssembleInputRegex = regexp.MustCompile(`^\s*##!=<\s*(.*)$`)
 var AssembleOutputRegex = regexp.MustCompile(`^\s*##!=>\s*(.*)$`)
 
 // RuleRxRegex matches a full SecRule line with @rx.
-// Everything up to the start of the regular expression is captured in group 1,
+// Everything up to the start of the regular expression (the first `"@rx ` on the line,
+// the regular expression itself may contain that text) is captured in group 1,
 // the regular expression in group 2, the closing quote and line continuation
 // in group 3, and whatever follows on the line (e.g., a carriage return) in group 4.
-var RuleRxRegex = regexp.MustCompile(`(.*"!?@rx )(.*)(" \\)(.*)`)
+var RuleRxRegex = regexp.MustCompile(`^(.*?"!?@rx )(.*)(" \\)(.*)`)
 
 // SecRuleRegex matches any SecRule line.
 var SecRuleRegex = regexp.MustCompile(`\s*SecRule`)
